@@ -8,7 +8,8 @@ package main
 //
 // (recmode 0 default LogPanic | 1 counting hook set in the Config before Client() | 2 the same hook
 // installed through conn.Config().Recover AFTER the built-in handlers and half of the user handlers
-// were registered: the function configured when the panic happens must get it.  seed%3 == 0: a small
+// were registered: the function configured when the panic happens must get it | 3 the hook set
+// through the caller's retained *Config after Client(cfg), before Connect().  seed%3 == 0: a small
 // cfg.Timeout (the dial timeout, unrelated to handlers) together with handlers slower than it.)
 // track 0 off | 1 EnableStateTracking() before Connect() | 2 after Connect(), before the traffic.
 // endmode 0 up | 1 server EOF | 2 user Close() | 3 "reconnect while closing": the last line of
@@ -135,6 +136,30 @@ func dspVerbName(track, v int) string {
 
 func (c *dspCase) smallTimeout() bool { return c.seed%3 == 0 }
 
+// tracking sessions that stay up, every other seed: the JOIN line (of a new nick) before which the
+// application floods conn.out while the server end is not reading; -1 = none
+func (c *dspCase) floodAt() int {
+	if c.track != 1 || c.endmode != 0 || c.seed%2 != 0 {
+		return -1
+	}
+	for k := len(c.codes) / 2; k < len(c.codes); k++ {
+		if c.codes[k] == 5 {
+			return k
+		}
+	}
+	return -1
+}
+
+// the IRCv3 batch window (non-tracking sessions whose generator put BATCH lines in)
+func (c *dspCase) batchWin() (int, int, bool) {
+	b0 := len(c.codes) / 4
+	b1 := b0 + 7
+	if c.track == 1 || b1 >= len(c.codes) || c.codes[b0]%1000 != 906 || c.codes[b1]%1000 != 907 {
+		return 0, 0, false
+	}
+	return b0, b1, true
+}
+
 func (c *dspCase) arg(k int) int {
 	if k < len(c.args) {
 		return c.args[k]
@@ -173,6 +198,15 @@ func (c *dspCase) lineText(k int) string {
 		return src + "CAP"
 	case 905:
 		return src + "JOIN"
+	case 906:
+		return src + "BATCH +r7 example"
+	case 907:
+		return src + "BATCH -r7"
+	}
+	if b0, b1, ok := c.batchWin(); ok && k > b0 && k < b1 && k%2 == 1 && !long {
+		// a line of the batch; the untagged lines in between must not overtake it
+		tag = fmt.Sprintf("@s=%d;batch=r7 ", k)
+		src = fmt.Sprintf("%s:%d!u@h ", tag, k)
 	}
 	vn := dspVerbName(c.track, code)
 	if c.track == 1 {
@@ -358,6 +392,7 @@ func (r *dspRun) sampleOnce(st state.Tracker) (int, bool) {
 	if ch.Modes != nil && ch.Modes.Key != "" {
 		up(dspAtoi(ch.Modes.Key))
 	}
+	nickSideStale := -1
 	for name, pr := range ch.Nicks {
 		if !strings.HasPrefix(name, "u") {
 			continue
@@ -372,6 +407,12 @@ func (r *dspRun) sampleOnce(st state.Tracker) (int, bool) {
 		if nk == nil {
 			return 0, false
 		}
+		if k, ok := r.opLine[name]; ok && pr != nil && pr.Op {
+			// the NICK-side view of the same privilege must agree with the channel-side one
+			if np := nk.Channels["#c"]; np == nil || !np.Op {
+				nickSideStale = k
+			}
+		}
 		up(num(nk.Host, "h"))
 		if nk.Modes != nil && nk.Modes.SSL {
 			if k, ok := r.sslLine[name]; ok {
@@ -383,6 +424,11 @@ func (r *dspRun) sampleOnce(st state.Tracker) (int, bool) {
 		if _, on := ch.Nicks[x.name]; !on && m > x.j {
 			up(x.k)
 		}
+	}
+	if nickSideStale >= 0 && nickSideStale <= m {
+		// GetNick(n).Channels still shows the privileges from before line nickSideStale:
+		// the tracker does not (consistently) reflect that line
+		return nickSideStale, true
 	}
 	return m + 1, true
 }
@@ -455,6 +501,12 @@ func (r *dspRun) handler(kind, i int) client.HandlerFunc {
 			<-r.park // a background handler that never returns (released at teardown)
 			atomic.AddInt64(&r.bgLive, 1)
 			return
+		}
+		if kind == dspKFg && r.c.seed%8 == 1 && dspHash(r.c.seed, 7000, k, i)%100 < 6 {
+			// a foreground handler changes the background set while (possibly) a background
+			// handler of an earlier event never returns
+			rm := conn.HandleBG("DSPNOP", client.HandlerFunc(func(*client.Conn, *client.Line) {}))
+			rm.Remove()
 		}
 		if r.c.endmode == 3 && kind == dspKFg && k == r.c.closeAt-1 {
 			// the slow foreground handler during which Close() and Connect() are issued
@@ -588,6 +640,10 @@ func dspExec(in Fields) Fields {
 	}
 	conn := client.Client(cfg)
 	r.conn = conn
+	if c.recmode == 3 {
+		// through the caller's retained *Config, after Client(cfg) and before Connect()
+		cfg.Recover = r.recoverHook
+	}
 	if c.track == 1 && !c.late {
 		conn.EnableStateTracking()
 	}
@@ -640,9 +696,13 @@ func dspExec(in Fields) Fields {
 	case <-time.After(5 * time.Second):
 		return F("end:noconnect")
 	}
-	go func() { // whatever the client says (NICK, USER, PONG, MODE, WHO) is read and dropped
+	var paused int32 // the server end stops reading the client's output for a while
+	go func() {      // whatever the client says (NICK, USER, PONG, MODE, WHO) is read and dropped
 		b := make([]byte, 4096)
 		for {
+			for atomic.LoadInt32(&paused) == 1 {
+				time.Sleep(time.Millisecond)
+			}
 			n, err := srv.Read(b)
 			atomic.AddInt64(&dspProgress, int64(n)+1)
 			if err != nil {
@@ -752,7 +812,21 @@ func dspExec(in Fields) Fields {
 		}
 		p := 0
 		fired := false
+		floodAt, flooded := c.floodAt(), false
 		for p < len(stream) {
+			if floodAt >= 0 && !flooded && p == offs[floodAt] {
+				// the application floods its output while the server is not reading: conn.out
+				// fills up; then somebody new JOINs (h_JOIN wants to send a WHO)
+				flooded = true
+				atomic.StoreInt32(&paused, 1)
+				go func() {
+					for j := 0; j < 40; j++ {
+						conn.Privmsg("#x", "flood")
+					}
+				}()
+				time.Sleep(40 * time.Millisecond)
+				time.AfterFunc(80*time.Millisecond, func() { atomic.StoreInt32(&paused, 0) })
+			}
 			if c.endmode == 2 && !fired && p >= stopAt {
 				fired = true
 				go func() { // a user goroutine calling Close() at some moment
@@ -775,6 +849,9 @@ func dspExec(in Fields) Fields {
 			}
 			if p+n > len(stream) {
 				n = len(stream) - p
+			}
+			if floodAt >= 0 && !flooded && p+n > offs[floodAt] {
+				n = offs[floodAt] - p
 			}
 			srv.SetWriteDeadline(time.Now().Add(10 * time.Second))
 			if _, err := srv.Write(stream[p : p+n]); err != nil {
@@ -878,7 +955,7 @@ func dspExec(in Fields) Fields {
 
 // ---------- stall watchdog (child process) ----------
 // Progress = events recorded + chunks written by the server side + bytes read from the client.
-// A session in which NOTHING of that moves for dspStallSecs seconds (handlers sleep 70 ms at
+// A session in which NOTHING of that moves for dspStallSecs seconds (default 12; handlers sleep 80 ms at
 // most; every wait of the harness is shorter) is stalled: the child writes "DSPSTALL" and the
 // stacks of all goroutines to stderr and exits; the parent turns that into obs "dead" "stalled"
 // + the dump.  A child that is merely slow (overloaded machine) keeps making progress.
@@ -895,7 +972,7 @@ func dspEnvSecs(name string, def int) int {
 
 func dspWatchdog(r *dspRun) func() {
 	stop := make(chan struct{})
-	limit := dspEnvSecs("DSP_STALL_SECS", 25)
+	limit := dspEnvSecs("DSP_STALL_SECS", 12)
 	go func() {
 		last, idle := int64(-1), 0
 		for {
@@ -1135,6 +1212,20 @@ func dspGenTrackLines(r *Rand, c *dspCase, nl int, o dspGenOpt, small bool, shor
 		c.codes = append(c.codes, code)
 		c.args = append(c.args, arg)
 	}
+}
+
+// put an IRCv3 batch into a non-tracking session: BATCH +r7, lines of which every other one is
+// tagged batch=r7, BATCH -r7
+func dspMakeBatch(c *dspCase) {
+	b0 := len(c.codes) / 4
+	b1 := b0 + 7
+	if c.track == 1 || b1 >= len(c.codes)-1 || b0 < 2 {
+		return
+	}
+	if c.endmode == 3 && c.closeAt-1 >= b0 && c.closeAt-1 <= b1 {
+		return
+	}
+	c.codes[b0], c.codes[b1] = 906, 907
 }
 
 // make one line in the second half of a non-tracking session a long one
